@@ -19,6 +19,7 @@ from .common import (
     kw,
     method_calls,
     prog_is_sub,
+    read_through_field_aliases,
     refusing_body,
     strip_cast,
 )
@@ -1255,7 +1256,7 @@ def disp9(ctx) -> List[Ob]:
         """{(attr, target kind)}: 'subgraph' = X.subregion, 'nested' = a region met while
         iterating a sub-graph, 'self' = the region at hand"""
         outk = set()
-        for c in A.walk_no_nested(fn.node):
+        for c in A.walk_no_nested(read_through_field_aliases(prog, fn.node)):
             if isinstance(c, ast.Call) and (A.dotted(c.func) or "") == "object.__setattr__" and len(c.args) == 3 and isinstance(c.args[1], ast.Constant):
                 tgt = c.args[0]
                 val = A.unparse(c.args[2])
